@@ -17,7 +17,15 @@ use std::collections::{BTreeMap, HashSet, VecDeque};
 
 #[derive(Clone, Debug, Serialize, Deserialize, PartialEq, Eq)]
 pub enum FilterSpec {
-    Html { action: String, path: Vec<String>, selector: Option<String>, value: String },
+    Html {
+        action: String,
+        path: Vec<String>,
+        selector: Option<String>,
+        value: String,
+        /// inner_value of the API filter (only used for unit traces; the document receives `value`)
+        #[serde(default)]
+        inner: Option<String>,
+    },
     Text { action: String, content: String },
 }
 
@@ -28,6 +36,7 @@ impl FilterSpec {
             path: path.iter().map(|s| s.to_string()).collect(),
             selector: selector.map(|s| s.to_string()),
             value: value.to_string(),
+            inner: None,
         }
     }
     pub fn text(action: &str, content: &str) -> FilterSpec {
@@ -35,10 +44,10 @@ impl FilterSpec {
     }
     pub fn to_body_filter(&self) -> Option<BodyFilter> {
         Some(match self {
-            FilterSpec::Html { action, path, selector, value } => BodyFilter::HTML(HTMLBodyFilter {
+            FilterSpec::Html { action, path, selector, value, inner } => BodyFilter::HTML(HTMLBodyFilter {
                 action: action.clone(),
                 value: value.clone(),
-                inner_value: None,
+                inner_value: inner.clone(),
                 element_tree: path.clone(),
                 css_selector: selector.clone(),
                 id: None,
